@@ -13,6 +13,9 @@ E3 = "deviation-bounded exhaustive enumeration of worker completion schedules (c
 
 # id -> (level, technique, text, note, design_ref)
 CHECKS = {
+    "C01": ("exploration", E1 + " (all series/parallel skeletons up to L leaves x leaf palette x 3 construction routes x frequency vectors)",
+            "Every canonical series/parallel skeleton with <= 3 (quick) / <= 5 (thorough) leaves and the object-only shapes, every filling from a 15-entry palette that forces open, shorted, partially shorted, tiny and huge branches and container elements, built from objects, from CDC text and with CircuitBuilder, evaluated on six frequency vectors and one frequency at a time; compared with a plain-complex reference composition. Exhaustive per bound; larger skeletons only as seeded random extras.",
+            "Leaf impedances are taken from the leaf element's own scalar get_impedances (C02 is responsible for leaves); tolerance 1e-12 x cancellation factor.", "DESIGN.md section 4, C01"),
     "C04": ("exploration", E1 + " (all atom sequences up to N, all single/double mutations of valid codes)",
             "Every string over a 28-atom lexical alphabet up to 4 (quick) / 5 (thorough) atoms, plus every single mutation of ~380 grammar-derived valid codes, is parsed by the real parse_cdc; outcome must be a Circuit, a parsing/tokenizing error or an explained ValueError; accepted strings must simulate (or raise an impedance error) and their serialisation must re-parse. Exhaustive within the stated alphabet and bound, which is the right level for a totality claim over strings.",
             "Strings outside the atom alphabet are only reached through mutations; a parse > 2 s counts as a hang.", "DESIGN.md section 4, C04"),
